@@ -104,7 +104,18 @@ def _bulk_getitem(eng, st, obj, idx, node, site):
 		b = _slice_bounds(st, idx, o.cols)      # 1-d array as a single row
 		if b is not None:
 			return iter([(st, RowView(obj, z3.IntVal(0), b[0], b[1]))])
-	# collection[slice] / collection[index sequence] -> new collection (C20 contract)
+	# collection[slice] / collection[index sequence] -> new collection (C20 contract); collection[int] -> that item
+	if isinstance(o, SObj) and o.T is TColl and is_intlike(idx):
+		n0 = CLEN(o.term)
+		i0 = int_term(idx)
+
+		def gen0():
+			for s2, inb in eng.branch(st, z3.And(i0 >= -n0, i0 < n0)):
+				if not inb:
+					yield s2, Raised('IndexError')
+				else:
+					yield s2, SObj(TSig, CITEM(o.term, z3.If(i0 < 0, i0 + n0, i0)))
+		return gen0()
 	if isinstance(o, SObj) and o.T is TColl:
 		n = CLEN(o.term)
 		b = _slice_bounds(st, idx, n)
@@ -117,17 +128,19 @@ def _bulk_getitem(eng, st, obj, idx, node, site):
 			st.assume(z3.ForAll([r], z3.Implies(z3.And(r >= 0, r < hi - lo), CITEM(R.term, r) == CITEM(o.term, lo + r)), patterns=[CITEM(R.term, r)]))
 			return iter([(st, R)])
 		iv = st.deref(idx) if isinstance(idx, Ref) else idx
-		if isinstance(iv, SSeq) and iv.T is TInt:
+		if (isinstance(iv, SSeq) and iv.T is TInt) or (isinstance(iv, SArr) and iv.kind == 'ndarray' and iv.elem is not None and getattr(iv.elem, 'name', '').startswith(('int', 'uint'))):
+			_at = (lambda t: z3.Select(iv.arr, t)) if isinstance(iv, SSeq) else (lambda t: iv.at(t))
+
 			def gen2():
 				j = z3.Int(fresh_name('j'))
-				inrange = z3.ForAll([j], z3.Implies(z3.And(j >= 0, j < iv.length), z3.And(z3.Select(iv.arr, j) >= -n, z3.Select(iv.arr, j) < n)))
+				inrange = z3.ForAll([j], z3.Implies(z3.And(j >= 0, j < iv.length), z3.And(_at(j) >= -n, _at(j) < n)))
 				for s2, ok in eng.branch(st, inrange):
 					if not ok:
 						yield s2, Raised('IndexError')
 						continue
 					s2.assume(R.term != TColl.none)
 					s2.assume(CLEN(R.term) == iv.length)
-					e = z3.Select(iv.arr, r)
+					e = _at(r)
 					s2.assume(z3.ForAll([r], z3.Implies(z3.And(r >= 0, r < iv.length), CITEM(R.term, r) == CITEM(o.term, z3.If(e < 0, e + n, e))), patterns=[CITEM(R.term, r)]))
 					yield s2, R
 			return gen2()
@@ -155,12 +168,75 @@ def _empty2(eng, st, args, kwargs, node):
 		st.heap[ref.addr] = Mat2(r, c, z3.Const(fresh_name('cells'), CELLS))
 		yield st, ref
 		return
+	if isinstance(shape, tuple) and len(shape) == 1:
+		shape = shape[0]
 	if is_intlike(shape):
 		ref = Ref('mat2')
 		st.heap[ref.addr] = Mat2(None, int_term(shape), z3.Const(fresh_name('cells'), CELLS))
 		yield st, ref
 		return
 	raise Unsupported(f'numpy.empty({shape!r})')
+
+
+@lib('__setitem__')
+def _bulk_setitem(eng, st, obj, idx, v, node, site):
+	"""out[a:b, i] = out[i, a:b] (the mirror copy of jaccarddist_pairwise): column i, rows a..b, receives the viewed row cells;
+	the right-hand side is read completely before anything is written (NumPy copies overlapping operands)"""
+	o = st.deref(obj) if isinstance(obj, Ref) else obj
+	if isinstance(o, Mat2) and o.rows is not None and isinstance(idx, tuple) and len(idx) == 2 and isinstance(v, RowView) and is_intlike(idx[1]):
+		b = _slice_bounds(st, idx[0], o.rows)
+		if b is None:
+			return None
+		lo, hi = b
+		ci = int_term(idx[1])
+		src = st.deref(v.base)
+
+		def gen():
+			for s2, inb in eng.branch(st, z3.And(ci >= -o.cols, ci < o.cols)):
+				if not inb:
+					yield s2, Raised('IndexError')
+					continue
+				col = z3.If(ci < 0, ci + o.cols, ci)
+				for s3, same in eng.branch(s2, hi - lo == v.hi - v.lo):
+					if not same:
+						for s4, one in eng.branch(s3, v.hi - v.lo == 1):
+							if one:
+								raise Unsupported('assignment that broadcasts a 1-element row over a column')
+							yield s4, Raised('ValueError')      # shapes cannot be broadcast
+						continue
+					new = z3.Const(fresh_name('cells'), CELLS)
+					r, c = z3.Int(fresh_name('r')), z3.Int(fresh_name('c'))
+					cur = s3.heap[obj.addr]
+					written = z3.And(r >= lo, r < hi, c == col)
+					s3.assume(z3.ForAll([r, c], z3.Select(z3.Select(new, r), c) == z3.If(written, z3.Select(z3.Select(src.cells, v.row), v.lo + (r - lo)), z3.Select(z3.Select(cur.cells, r), c)),
+					                    patterns=[z3.Select(z3.Select(new, r), c)]))
+					s3.heap[obj.addr] = Mat2(cur.rows, cur.cols, new)
+					yield s3, None
+		return gen()
+	return None
+
+
+@lib('numpy.fill_diagonal')
+def _fill_diagonal(eng, st, args, kwargs, node):
+	"""np.fill_diagonal(a, 0) on a 2-d float32 array: a[d, d] = 0.0 for every d < min(rows, cols), nothing else changes"""
+	_guard_kwargs_none(kwargs, 'numpy.fill_diagonal')
+	if len(args) != 2:
+		raise Unsupported('numpy.fill_diagonal with other than (array, value)')
+	m = st.deref(args[0])
+	if not isinstance(m, Mat2) or m.rows is None:
+		raise Unsupported('numpy.fill_diagonal of something that is not a 2-d float32 array')
+	val = TF32.unwrap(args[1])
+	new = z3.Const(fresh_name('cells'), CELLS)
+	r, c = z3.Int(fresh_name('r')), z3.Int(fresh_name('c'))
+	diag = z3.And(r == c, r >= 0, r < m.rows, r < m.cols)
+	st.assume(z3.ForAll([r, c], z3.Select(z3.Select(new, r), c) == z3.If(diag, val, z3.Select(z3.Select(m.cells, r), c)), patterns=[z3.Select(z3.Select(new, r), c)]))
+	st.heap[args[0].addr] = Mat2(m.rows, m.cols, new)
+	yield st, None
+
+
+def _guard_kwargs_none(kwargs, what):
+	if kwargs:
+		raise Unsupported(f'{what} with keyword arguments {sorted(kwargs)}')
 
 
 @lib('attr:mat2')
